@@ -1,1 +1,86 @@
 //! Verification facade: `iotap` (feature `verif`).
+//!
+//! I/O tap: when a sink is installed, every mutation issued through `DBFile`
+//! (create, write, truncate, sync, remove) is appended to a global, ordered event list, so that
+//! a harness can rebuild the on-disk image as of any prefix of the I/O stream (a crash point).
+//! With no sink installed the cost is one relaxed atomic load per call.
+use std::{
+    fs::File,
+    io::{self, Seek, Write},
+    path::{Path, PathBuf},
+    sync::{
+        Mutex,
+        atomic::{AtomicBool, Ordering},
+    },
+};
+
+#[derive(Debug, Clone, PartialEq, Eq)]
+pub enum IoEvent {
+    /// File created, or truncated to zero length by `create`.
+    Create(PathBuf),
+    /// `len` bytes written at `offset`.
+    Write { path: PathBuf, offset: u64, data: Vec<u8> },
+    SetLen { path: PathBuf, len: u64 },
+    Sync(PathBuf),
+    Remove(PathBuf),
+    /// Marker inserted by the harness (e.g. "call N returned").
+    Mark(String),
+}
+
+static ENABLED: AtomicBool = AtomicBool::new(false);
+static SINK: Mutex<Vec<IoEvent>> = Mutex::new(Vec::new());
+
+#[inline]
+pub fn enabled() -> bool {
+    ENABLED.load(Ordering::Relaxed)
+}
+
+/// Start recording (clears anything recorded before).
+pub fn install() {
+    SINK.lock().unwrap().clear();
+    ENABLED.store(true, Ordering::SeqCst);
+}
+
+/// Stop recording and return the events in issue order.
+pub fn take() -> Vec<IoEvent> {
+    ENABLED.store(false, Ordering::SeqCst);
+    std::mem::take(&mut *SINK.lock().unwrap())
+}
+
+/// Number of events recorded so far.
+pub fn len() -> usize {
+    SINK.lock().unwrap().len()
+}
+
+pub fn mark(label: &str) {
+    push(IoEvent::Mark(label.to_string()));
+}
+
+fn push(e: IoEvent) {
+    if enabled() {
+        SINK.lock().unwrap().push(e);
+    }
+}
+
+pub(crate) fn tapped_write(f: &mut File, p: &Path, buf: &[u8]) -> io::Result<usize> {
+    let offset = f.stream_position()?;
+    let n = f.write(buf)?;
+    push(IoEvent::Write { path: p.to_path_buf(), offset, data: buf[..n].to_vec() });
+    Ok(n)
+}
+
+pub(crate) fn record_create(p: &Path) {
+    push(IoEvent::Create(p.to_path_buf()));
+}
+
+pub(crate) fn record_remove(p: &Path) {
+    push(IoEvent::Remove(p.to_path_buf()));
+}
+
+pub(crate) fn record_set_len(p: &Path, len: u64) {
+    push(IoEvent::SetLen { path: p.to_path_buf(), len });
+}
+
+pub(crate) fn record_sync(p: &Path) {
+    push(IoEvent::Sync(p.to_path_buf()));
+}
